@@ -196,7 +196,7 @@ impl<'input> Parser<'input> {
     /// This is the expected format of the string value of the `type` argument
     /// of some directives like [`@field`](https://specs.apollo.dev/join/v0.3/#@field).
     pub fn parse_type(mut self) -> SyntaxTree<Type> {
-        grammar::ty::ty(&mut self);
+        grammar::ty::standalone_ty(&mut self);
 
         let builder = Rc::try_unwrap(self.builder)
             .expect("More than one reference to builder left")
@@ -441,6 +441,26 @@ impl<'input> Parser<'input> {
         self.skip_ignored();
 
         guard
+    }
+
+    /// Start the root node of a tree whose kind is only known after peeking at the first token.
+    ///
+    /// Unlike [`Self::start_node`], tokens that are already pending (leading ignored tokens and
+    /// lexer errors) are attached *inside* the new node: a tree can only have one root.
+    pub(crate) fn start_root_node(&mut self, kind: SyntaxKind) -> NodeGuard {
+        self.builder.borrow_mut().start_node(kind);
+        let guard = NodeGuard::new(self.builder.clone());
+        self.push_ignored();
+        self.skip_ignored();
+
+        guard
+    }
+
+    /// Like [`Self::checkpoint_node`], for a root node: pending tokens are not flushed first, so
+    /// they end up inside the node started or wrapped at this checkpoint.
+    pub(crate) fn checkpoint_root(&mut self) -> Checkpoint {
+        let checkpoint = self.builder.borrow().checkpoint();
+        Checkpoint::new(self.builder.clone(), checkpoint)
     }
 
     /// Set a checkpoint for *maybe* wrapping the following parse tree in some
